@@ -104,7 +104,7 @@ PROPS = {
                 gen=lambda seed, tier: gen.gen_history_cases(seed + 3, 12000 if tier == 'thorough' else 2400), flavours=['c'],
                 rule='the same histories: yaep_error_code / message after every call, return codes of yaep_parse for invalid token codes (below, between and above the declared codes), undefined grammars, NULL allocator with non-NULL free; previous values returned by all setters incl. out-of-range lookahead levels',
                 assumptions=COMMON_ASSUME),
-    'C17': dict(level='fault_enumeration', theorem_modules=['C14', 'C17'], min_theorems=4, tags=['C17', 'C12', 'C15', 'C14'], crash_counts=True, runner=None,
+    'C17': dict(level='fault_enumeration', theorem_modules=['C14', 'C17'], min_theorems=4, tags=['C17', 'C12', 'C15', 'C14', 'C13'], crash_counts=True, runner=None,
                 flavours=['c', 'cxx', 'c-fi'],
                 rule='scenarios (callback-defined and description-defined grammars, parse with and without error recovery, all parses with cost pruning, dynamic lookahead, a second live object): the fault-free run counts the library allocations of yaep_create_grammar / the definition / yaep_parse; then for every k (thorough: all k; quick: a strided sample incl. the first and last 10) the k-th allocation of that call fails: expected NULL resp. YAEP_NO_MEMORY with error code 1, no sanitizer report, yaep_free_grammar succeeds, the other object still parses as the model says; non-trivial = a variant in which the injected failure actually fired',
                 assumptions=['malloc/calloc/realloc/free of allocate.c are replaced by counting, failing wrappers (no source hook); operator new of the C++ containers is not injected',
@@ -154,6 +154,10 @@ def fault_scenarios(seed, tier):
     nalt = 130
     many = gen.Grammar([('a', 97)], [('S', None, 0, ['X%d' % j], [0]) for j in range(nalt)] + [('X%d' % j, 'x', 1, ['a'], [0]) for j in range(nalt)], True)
     plans.append((many, None, [97], dict(rec=0)))
+    # a long input with abstract nodes everywhere: make_parse requests memory (segments of its state stack)
+    # long after the first nodes of the tree exist
+    plans.append((fixed, None, [97] + [43, 97] * 40, dict(rec=0)))
+    plans.append((amb, None, [97] * 14, dict(one=0, rec=0)))
     nrand = 10 if tier == 'thorough' else 2
     for _ in range(nrand):
         g = gen.gen_grammar(r, err_prob=0.4)
@@ -231,6 +235,9 @@ def run_c17(pid, P, tier, seed):
                     if (k % 3 == 2 or os.environ.get('VERIF_C17_REPARSE')) and kind == 'parse':
                         # the object stays defined after a failed parse: parse again, twice
                         vo += [ops[i - 1], ops[i - 1], 'err 0']
+                        # ... and release their trees: every block must be one of that parse (C13)
+                        nslot = sum(1 for x in ops[:i] if x.split()[0] == 'parse' and x.split()[1] == '0')
+                        vo += ['freetree 0 %d 1' % (nslot + 1), 'freetree 0 %d 1' % nslot]
                     elif k % 2 == 0 and kind != 'create':
                         # the same object is defined again and used: it must behave like a fresh one
                         redo = [x for x in ops if x.split()[0] in ('def', 'descr', 'parse') and x.split()[1] == '0']
@@ -249,7 +256,7 @@ def run_c17(pid, P, tier, seed):
             if v.prop == 'C14' and not v.ok:
                 vcount['%s leaked-after-failure cases (not judged)' % flavour] += 1
                 continue
-            if v.prop == 'C17' or v.prop == 'C12' or (v.prop in ('C15', 'C14', 'C10', 'C01') and v.kind == 'K'):
+            if v.prop == 'C17' or v.prop == 'C12' or (v.prop in ('C15', 'C14', 'C10', 'C01', 'C13') and v.kind == 'K'):
                 vcount['%s %s %s %s' % (flavour, v.prop, v.kind, 'ok' if v.ok else 'bad')] += 1
                 if v.prop == 'C17' and 'under allocation failure' in v.detail: fired_cases.add(v.case)
                 if not v.ok:
